@@ -294,6 +294,8 @@ class TUf(Theory):
             return b
         if op == "Div" and self.is_one(b):
             return a
+        if self.backend == "dec" and op == "Mul" and (self.is_zero(a) or self.is_zero(b)):
+            return self.const(F(0))        # exact for decimals; NOT for f64 (inf*0, sign of zero)
         x, y = a.term, b.term
         if op in ("Mul", "Add") and x.get_id() > y.get_id():
             x, y = y, x
